@@ -166,6 +166,13 @@ func (w *world) apply(f []string) string {
 		case "leave":
 			w.player(atoi(f[1])).Player().Disconnect(nil)
 			return "r=-"
+		case "dup":
+			// a second login with the name and UUID of connection i, which is online: registerConnection refuses it
+			// ("already connected"), the refused connection is disconnected and its teardown unregisters — nothing
+			fresh := newPlayer(w.px, atoi(f[1]))
+			ok := proxy.C12Join(w.px, fresh)
+			fresh.Player().Disconnect(nil)
+			return fmt.Sprintf("r=%s n=%d", b01(ok), w.px.PlayerCount())
 		case "sadd":
 			proxy.C12ServerAdd(w.lobby, w.player(atoi(f[1])))
 			return "r=-"
@@ -257,6 +264,20 @@ func randomSequence(run *hx.Run, r *hx.Rng, n int) {
 	run.Case("rand:reset", "reset", "-")
 	next := 0
 	var joined []int
+	online := map[int]bool{}
+	pickOnline := func() int {
+		var l []int
+		for i, on := range online {
+			if on {
+				l = append(l, i)
+			}
+		}
+		if len(l) == 0 {
+			return -1
+		}
+		sort.Ints(l)
+		return l[r.Intn(len(l))]
+	}
 	pick := func() int { // a connection that has joined at some point (it may have left again)
 		if len(joined) == 0 || r.Chance(1, 6) {
 			return r.Intn(next)
@@ -271,11 +292,18 @@ func randomSequence(run *hx.Run, r *hx.Rng, n int) {
 		}
 		switch {
 		case c < 7:
-			o = "join " + strconv.Itoa(next)
-			joined = append(joined, next)
-			next++
+			if i := pickOnline(); i >= 0 && r.Chance(1, 3) {
+				o = "dup " + strconv.Itoa(i) // somebody who is online logs in a second time
+			} else {
+				o = "join " + strconv.Itoa(next)
+				joined = append(joined, next)
+				online[next] = true
+				next++
+			}
 		case c < 10:
-			o = "leave " + strconv.Itoa(pick())
+			i := pick()
+			online[i] = false
+			o = "leave " + strconv.Itoa(i)
 		case c < 14:
 			o = "sadd " + strconv.Itoa(pick())
 		case c < 16:
@@ -303,6 +331,7 @@ func randomSequence(run *hx.Run, r *hx.Rng, n int) {
 		default:
 			o = "discall"
 			joined = nil
+			online = map[int]bool{}
 		}
 		f := strings.Fields(o)
 		out := w.apply(f)
@@ -565,6 +594,10 @@ func main() {
 	sequence(run, "fixed:fresh-copy", []string{"regsrv 1", "regsrv 2", "regsrv 3", "regsrv 4", "servers", "servers", "servers",
 		"unregsrv 2", "servers", "servers", "join 0", "join 1", "join 2", "join 3", "players", "players", "count", "leave 2",
 		"players", "players", "servers"})
+	// rejected duplicate logins: nobody joined, nobody left — counts and listings stay what they were
+	sequence(run, "fixed:rejected-duplicate", []string{"join 0", "count", "dup 0", "count", "players", "dup 0", "count", "players",
+		"dup 0", "players", "join 1", "dup 1", "dup 0", "count", "players", "leave 0", "count", "players", "dup 1", "dup 1",
+		"count", "players", "discall", "count", "players"})
 	// DisconnectAll on its own with many players online (as found: fatal error in the process)
 	run.Case("conc:discallonce", "conc discallonce 3000", runChild("discallonce", 3000))
 
